@@ -93,6 +93,10 @@ def stage2_crosscheck(facts):
     every crate-local / store-API call site seen in stage 1 must also exist in stage 2 (and vice versa)."""
     d2 = extract.facts_dir(stage=2)
     out = {"bodies_compared": 0, "bodies_skipped_async": 0, "mismatches": []}
+    # the comparison is between what the extractor read at the two MIR stages: on the bodies as extracted, before any helper
+    # is spliced or any combinator / select! desugared
+    from .facts import Facts
+    facts = Facts(facts.dir, splice=False)
     for fname, crate in (("xs-lib-s2.json", facts.lib), ("xs-bin-s2.json", facts.bin)):
         with open(os.path.join(d2, fname)) as fh:
             text = fh.read().replace("crate::", crate.name + "::")
